@@ -582,7 +582,8 @@ def _check_examples(run, repo):
             continue
         for node in ast.walk(tree):
             for ch in ast.iter_child_nodes(node):
-                ch._parent = node
+                if not isinstance(ch, ast.expr_context):
+                    ch._parent = node
         for node in ast.walk(tree):
             if isinstance(node, ast.Call) and any(
                     k.arg == "in_transaction" and isinstance(
